@@ -35,7 +35,7 @@ BACK_CLASSES = ["default", "default", "int64", "narrow", "mapping"]
 
 def shards(tier):
     if tier == "quick":
-        return [{"label": "mix%d" % i, "kind": "mix", "n": 5000, "crash_is_violation": True} for i in range(12)] + \
+        return [{"label": "mix%d" % i, "kind": "mix", "n": 9000, "crash_is_violation": True} for i in range(13)] + \
                [{"label": "rowscan", "kind": "rowscan", "n": 1000, "crash_is_violation": True},
                 {"label": "huge", "kind": "huge", "n": 3, "crash_is_violation": True, "mem_gib": 12},
                 {"label": "wide", "kind": "wide", "n": 12, "crash_is_violation": True, "mem_gib": 12}]
